@@ -39,7 +39,7 @@ fn build_data(u: &mut Unstructured, max: usize) -> arbitrary::Result<Vec<u8>> {
             _ if !out.is_empty() => {
                 // long periodic stretch (cheap way to reach window moves)
                 let period = 1 + u.int_in_range(0usize..=400)? % out.len();
-                let len = u.int_in_range(1000usize..=120_000)?;
+                let len = u.int_in_range(1000usize..=30_000)?;
                 for _ in 0..len {
                     let b = out[out.len() - period];
                     out.push(b);
@@ -58,7 +58,7 @@ fn run(u: &mut Unstructured) -> arbitrary::Result<()> {
         0 => 4096,
         1 => 65_536,
         2 => u.int_in_range(4096u32..=(1 << 20))?,
-        _ => 1u32 << u.int_in_range(12u32..=22)?,
+        _ => 1u32 << u.int_in_range(12u32..=18)?,
     };
     let (lc, lp) = if lzma2_like {
         let lc = u.int_in_range(0u32..=4)?;
@@ -74,11 +74,12 @@ fn run(u: &mut Unstructured) -> arbitrary::Result<()> {
     let o = LZMAOptions::new(dict, lc, lp, pb, mode, nice, mf, depth);
     let piece = [1usize << 30, 4096, 1000, 77, 1][u.int_in_range(0usize..=4)?];
     let chunk = [65_536usize, 4096, 7, 1][u.int_in_range(0usize..=3)?];
-    let unit = if u.ratio(1, 3)? { u.int_in_range(1u64..=200_000)? } else { 0 };
+    // every unit builds a fresh encoder (about 1 MiB of tables): keep the number of units per input moderate
+    let unit = if u.ratio(1, 3)? { u.int_in_range(2_000u64..=100_000)? } else { 0 };
     let bias_on = u.ratio(1, 4)?;
     let bias_k = u.int_in_range(0i64..=100_000)?;
-    let fit: Option<i64> = if u.ratio(1, 4)? { Some(u.int_in_range(-2i64..=2)?) } else { None };
-    let mut data = build_data(u, 400_000)?;
+    let fit: Option<i64> = if u.ratio(1, 16)? { Some(u.int_in_range(-2i64..=2)?) } else { None };
+    let mut data = build_data(u, 40_000)?;
 
     let encode = |data: &[u8]| -> std::io::Result<Vec<u8>> {
         fn feed<W: Write>(w: &mut W, data: &[u8], piece: usize) -> std::io::Result<()> {
